@@ -80,9 +80,9 @@ def cases(draw, tier="quick"):
     T = types_p(depth)
     ops = []
     all_ops = [(e["name"], od["name"]) for e in pool for od in e["ops"]]
-    for _ in range(draw(st.integers(1, 4))):
-        kind = draw(st.sampled_from(["pool", "pool", "pool", "std", "unknown"]))
-        i, o = draw(st.lists(T, max_size=2)), draw(st.lists(T, max_size=2))
+    for _ in range(draw(st.integers(2, 5))):
+        kind = draw(st.sampled_from(["pool", "pool", "pool", "pool", "std", "unknown"]))
+        i, o = draw(st.lists(T, min_size=1, max_size=2)), draw(st.lists(T, max_size=2))
         args = draw(st.lists(st.one_of(T.map(lambda t: {"k": "type", "t": t}), st.lists(T.map(lambda t: {"k": "type", "t": t}), max_size=2).map(lambda es: {"k": "seq", "es": es}), asts.args(0)), max_size=2))
         if kind == "pool":
             en, on = draw(st.sampled_from(all_ops))
@@ -98,7 +98,7 @@ def cases(draw, tier="quick"):
         reg.append(
             {
                 "ext": e["name"],
-                "drop_types": draw(st.lists(st.sampled_from([t["name"] for t in e["types"]]), max_size=1, unique=True)),
+                "drop_types": draw(st.lists(st.sampled_from([t["name"] for t in e["types"]]), max_size=2, unique=True)),
                 "drop_ops": draw(st.lists(st.sampled_from([o["name"] for o in e["ops"]]), max_size=1, unique=True)),
             }
         )
